@@ -112,7 +112,7 @@ def generate(prop, rng, run, tier):
         elif r < 0.18:
             seq.append({"op": "restart", "entry": rng.choice(["ctor-string", "ctor-file", "loads",
                                                               "load-stringio", "open-simfs",
-                                                              "open-native"])})
+                                                              "open-native", "deepcopy", "pickle"])})
         else:
             op = gen.gen_edit_op(rng, fmt, profile, nch, "roundtrip", weights)
             seq.append(op)
@@ -189,6 +189,8 @@ def _generate_c18(rng):
                             "..\\shared\\banner.png", "\\", "x//y", "a;b", " padded ", "150:150",
                             "heavy", "l1\nl2", "\u00e9\u3042", "0000\n0000\n", "rows\r\n", "\n",
                             "\nlead", "tab\t"])
+        if rng.random() < 0.05:
+            value = None          # what a key-only parameter (#STOPS;) loads as
         if kind == "smchart":
             opk = gen.wchoice(rng, [("get_attr", 2), ("set_attr", 3), ("del_attr", 1), ("get_key", 2),
                                     ("set_key", 3), ("del_key", 1), ("contains", 1), ("iter", 1),
@@ -255,7 +257,8 @@ def _c18_core():
     for obj, fmt, attr, std, alias in combos:
         chart = obj == "sscchart"
         states = [[], [[std, "s"]], [[std, ""]], [[alias, "a"]], [[alias, ""]],
-                  [[std, "s"], [alias, "a"]], [[alias, "a"], [std, "s"]], [[std, ""], [alias, "a"]]]
+                  [[std, "s"], [alias, "a"]], [[alias, "a"], [std, "s"]], [[std, ""], [alias, "a"]],
+                  [[std, None], [alias, "a"]]]
         ops_ = vocab(attr, std, alias, chart)
         reads = [o for o in ops_ if o["op"] in ("get_attr", "iter") or
                  (o["op"] == "contains" and o["key"] == std)]
@@ -782,6 +785,23 @@ def execute(sc):
             if res.violations or text is None:
                 break
             entry = op.get("entry", "ctor-string")
+            if entry in ("deepcopy", "pickle"):
+                # the session continues on a copy of the object (no text involved): equal in
+                # every respect, order included, and whatever the instance carried came along
+                import copy as _copy
+                import pickle as _pickle
+                try:
+                    sf2 = _copy.deepcopy(sf) if entry == "deepcopy" else _pickle.loads(_pickle.dumps(sf))
+                except Exception as e:
+                    res.violate(prop, "copy-raised", entry=entry, exc=repr(e))
+                    break
+                if ops.real_plain(sf2, lib) != model.plain():
+                    res.violate(prop, "copy-differs", entry=entry, got=_trim(ops.real_plain(sf2, lib)),
+                                expected=_trim(model.plain()))
+                    break
+                sf = sf2
+                res.stats["probe:restart:" + entry] += 1
+                continue
             first_key = model.items[0][0] if model.items else None
             detect_ok = (first_key == "VERSION") == (fmt == "ssc")
             if entry in ("loads", "load-stringio") and not detect_ok:
